@@ -70,7 +70,9 @@ int main(){
             } else if (mode == "PDS"){
                 double lmin = rd(in), lo[3], hi[3]; for (double& x : lo) x = rd(in); for (double& x : hi) x = rd(in);
                 int n; in >> n; std::vector<oriented_point> pts;
-                for (int i = 0; i < n; i++){ double x = rd(in), y = rd(in), z = rd(in); pts.emplace_back((unsigned)i, vec3(x,y,z), vec3(0,0,1)); }
+                for (int i = 0; i < n; i++){ double x = rd(in), y = rd(in), z = rd(in); // normals of all orientations (the spacing rule does not depend on them): +z, -z, +x, oblique
+                    static const double nrm[4][3] = {{0,0,1},{0,0,-1},{1,0,0},{-0.6,0.8,0}};
+                    pts.emplace_back((unsigned)i, vec3(x,y,z), vec3(nrm[i%4][0], nrm[i%4][1], nrm[i%4][2])); }
                 uspg_4d<oriented_point> g1(lo[0],lo[1],lo[2],hi[0],hi[1],hi[2], lmin, n), g2(lo[0],lo[1],lo[2],hi[0],hi[1],hi[2], lmin, n);
                 for (oriented_point& p : pts) g1.place_object(p, p.position_);
                 auto out = poisson_sampling::poisson_disk_sampling(g1, g2, lmin);
